@@ -86,6 +86,16 @@ def frame_cases(draw):
     elif iface == 'astype':
         case['ck'] = draw(st.one_of(st.none(), gen.iloc_key(m)))
         case['dt'], case['aform'], case['dspec'] = ch['dt'], ch['aform'], ch['dspec']
+        # one time in three (when the layout allows it): the first and the last column of a wide block that already has the
+        # requested dtype, together with every column of the blocks after it
+        start = 0
+        for b in rec['blocks']:
+            w = 1 if b.ndim == 1 else b.shape[1]
+            if b.ndim == 2 and w >= 3 and start + w < m and str(b.dtype) in ('int64', 'float64', 'bool', 'object', 'float32', 'complex128'):
+                if draw(st.integers(0, 2)) == 2:
+                    case['ck'], case['dt'], case['aform'] = [start, start + w - 1] + list(range(start + w, m)), str(b.dtype), 'std'
+                break
+            start += w
     elif iface == 'relabel':
         case['how'], case['axis'], case['keep'] = ch['how'], ch['axis'], ch['keep']
     elif iface == 'rename':
